@@ -94,6 +94,96 @@ pub trait RealNumber: Copy + Sized + PartialEq + PartialOrd
     proof fn from_self_is_identity()
         ensures forall|x: Self| #[trigger] Self::from_spec::<Self>(x) == x;
 
+
+    // ---- the rest of the num_traits::Float / RealNumber API, each an uninterpreted function of its arguments (A-REALNUMBER-TRAIT):
+    // present so that a change which starts using one of them is still readable by Verus (and then fails the contract it breaks)
+    spec fn signum_spec(self) -> Self;
+    fn signum(self) -> (r: Self) ensures r == self.signum_spec();
+    spec fn floor_spec(self) -> Self;
+    fn floor(self) -> (r: Self) ensures r == self.floor_spec();
+    spec fn ceil_spec(self) -> Self;
+    fn ceil(self) -> (r: Self) ensures r == self.ceil_spec();
+    spec fn round_spec(self) -> Self;
+    fn round(self) -> (r: Self) ensures r == self.round_spec();
+    spec fn trunc_spec(self) -> Self;
+    fn trunc(self) -> (r: Self) ensures r == self.trunc_spec();
+    spec fn fract_spec(self) -> Self;
+    fn fract(self) -> (r: Self) ensures r == self.fract_spec();
+    spec fn recip_spec(self) -> Self;
+    fn recip(self) -> (r: Self) ensures r == self.recip_spec();
+    spec fn exp2_spec(self) -> Self;
+    fn exp2(self) -> (r: Self) ensures r == self.exp2_spec();
+    spec fn exp_m1_spec(self) -> Self;
+    fn exp_m1(self) -> (r: Self) ensures r == self.exp_m1_spec();
+    spec fn ln_1p_spec(self) -> Self;
+    fn ln_1p(self) -> (r: Self) ensures r == self.ln_1p_spec();
+    spec fn log2_spec(self) -> Self;
+    fn log2(self) -> (r: Self) ensures r == self.log2_spec();
+    spec fn log10_spec(self) -> Self;
+    fn log10(self) -> (r: Self) ensures r == self.log10_spec();
+    spec fn cbrt_spec(self) -> Self;
+    fn cbrt(self) -> (r: Self) ensures r == self.cbrt_spec();
+    spec fn sin_spec(self) -> Self;
+    fn sin(self) -> (r: Self) ensures r == self.sin_spec();
+    spec fn cos_spec(self) -> Self;
+    fn cos(self) -> (r: Self) ensures r == self.cos_spec();
+    spec fn tan_spec(self) -> Self;
+    fn tan(self) -> (r: Self) ensures r == self.tan_spec();
+    spec fn asin_spec(self) -> Self;
+    fn asin(self) -> (r: Self) ensures r == self.asin_spec();
+    spec fn acos_spec(self) -> Self;
+    fn acos(self) -> (r: Self) ensures r == self.acos_spec();
+    spec fn atan_spec(self) -> Self;
+    fn atan(self) -> (r: Self) ensures r == self.atan_spec();
+    spec fn sinh_spec(self) -> Self;
+    fn sinh(self) -> (r: Self) ensures r == self.sinh_spec();
+    spec fn cosh_spec(self) -> Self;
+    fn cosh(self) -> (r: Self) ensures r == self.cosh_spec();
+    spec fn asinh_spec(self) -> Self;
+    fn asinh(self) -> (r: Self) ensures r == self.asinh_spec();
+    spec fn acosh_spec(self) -> Self;
+    fn acosh(self) -> (r: Self) ensures r == self.acosh_spec();
+    spec fn atanh_spec(self) -> Self;
+    fn atanh(self) -> (r: Self) ensures r == self.atanh_spec();
+    spec fn to_degrees_spec(self) -> Self;
+    fn to_degrees(self) -> (r: Self) ensures r == self.to_degrees_spec();
+    spec fn to_radians_spec(self) -> Self;
+    fn to_radians(self) -> (r: Self) ensures r == self.to_radians_spec();
+    spec fn ln_1pe_spec(self) -> Self;
+    fn ln_1pe(self) -> (r: Self) ensures r == self.ln_1pe_spec();
+    spec fn sigmoid_spec(self) -> Self;
+    fn sigmoid(self) -> (r: Self) ensures r == self.sigmoid_spec();
+    spec fn log_spec(self, o: Self) -> Self;
+    fn log(self, o: Self) -> (r: Self) ensures r == self.log_spec(o);
+    spec fn hypot_spec(self, o: Self) -> Self;
+    fn hypot(self, o: Self) -> (r: Self) ensures r == self.hypot_spec(o);
+    spec fn atan2_spec(self, o: Self) -> Self;
+    fn atan2(self, o: Self) -> (r: Self) ensures r == self.atan2_spec(o);
+    spec fn abs_sub_spec(self, o: Self) -> Self;
+    fn abs_sub(self, o: Self) -> (r: Self) ensures r == self.abs_sub_spec(o);
+    spec fn copysign_spec(self, o: Self) -> Self;
+    fn copysign(self, o: Self) -> (r: Self) ensures r == self.copysign_spec(o);
+    spec fn is_infinite_spec(self) -> bool;
+    fn is_infinite(self) -> (r: bool) ensures r == self.is_infinite_spec();
+    spec fn is_finite_spec(self) -> bool;
+    fn is_finite(self) -> (r: bool) ensures r == self.is_finite_spec();
+    spec fn is_normal_spec(self) -> bool;
+    fn is_normal(self) -> (r: bool) ensures r == self.is_normal_spec();
+    spec fn is_sign_positive_spec(self) -> bool;
+    fn is_sign_positive(self) -> (r: bool) ensures r == self.is_sign_positive_spec();
+    spec fn is_sign_negative_spec(self) -> bool;
+    fn is_sign_negative(self) -> (r: bool) ensures r == self.is_sign_negative_spec();
+    spec fn mul_add_spec(self, a: Self, b: Self) -> Self;
+    fn mul_add(self, a: Self, b: Self) -> (r: Self) ensures r == self.mul_add_spec(a, b);
+    spec fn to_f64_spec(self) -> Option<f64>;
+    fn to_f64(self) -> (r: Option<f64>) ensures r == self.to_f64_spec();
+    spec fn to_i64_spec(self) -> Option<i64>;
+    fn to_i64(self) -> (r: Option<i64>) ensures r == self.to_i64_spec();
+    spec fn nan_spec() -> Self;
+    fn nan() -> (r: Self) ensures r == Self::nan_spec();
+    spec fn min_positive_value_spec() -> Self;
+    fn min_positive_value() -> (r: Self) ensures r == Self::min_positive_value_spec();
+
     // crate::math::num::RealNumber::square has a default body in /repo: extracted verbatim
 //@extract src/math/num.rs :: pub trait RealNumber: Float + FromPrimitive + Debug + Display + Copy + Sum + Product + AddAssign + SubAssign + MulAssign + DivAssign :: square :: ret=r canary=no
 //@spec
